@@ -3,6 +3,7 @@ package main
 // C07 — stream framing is independent of how the transport chunks bytes.
 
 import (
+	"fmt"
 	"go/constant"
 	"go/token"
 	"go/types"
@@ -193,6 +194,67 @@ func runC07(r *Run, verifDir string) {
 	if needPhi == nil {
 		r.Unk("C07.S1", "ttlv.Stream.Recv/need", fn.Pos(), "the `need` variable (phi of 8 and computeNeededBytes) not recognised")
 		return
+	}
+	// --- S7: the transport is touched by nothing but the one bounded read (and Send's write, Close's close)
+	r.Rule("C07.S7", "the stream's transport is used only by the bounded read of Recv, the write of Send and Close: nothing else can consume or inject bytes", 3)
+	for _, f := range pkgFuncs(p, "ttlv") {
+		ord := 0
+		allInstrs(f, func(in ssa.Instruction) {
+			ld, ok := in.(*ssa.UnOp)
+			if !ok || ld.Op != token.MUL {
+				return
+			}
+			fa, ok := ld.X.(*ssa.FieldAddr)
+			if !ok || typeName(derefType(fa.X.Type())) != "Stream" || fname(derefStruct(fa.X.Type()).Field(fa.Field)) != "inner" {
+				return
+			}
+			for _, ref := range *ld.Referrers() {
+				ord++
+				key := fmt.Sprintf("%s/transport-use#%d", fnKey(f), ord)
+				okUse, what := false, "another use"
+				switch x := ref.(type) {
+				case *ssa.Call:
+					switch {
+					case x == readCall:
+						okUse, what = true, "the bounded read"
+					case x.Call.IsInvoke() && x.Call.Value == ssa.Value(ld) && x.Call.Method.Name() == "Write" && idOf(f).name == "Send":
+						okUse, what = true, "Send's write"
+					case x.Call.IsInvoke() && x.Call.Value == ssa.Value(ld) && x.Call.Method.Name() == "Close":
+						okUse, what = true, "close"
+					case x.Call.IsInvoke() && x.Call.Value == ssa.Value(ld):
+						what = "a call of " + x.Call.Method.Name()
+					default:
+						what = "handed to " + callID(&x.Call).String()
+					}
+				case *ssa.BinOp:
+					okUse, what = true, "nil test" // s.inner == nil
+				case *ssa.Store:
+					okUse = x.Addr != ssa.Value(ld) && false
+					what = "stored elsewhere"
+				case *ssa.DebugRef:
+					okUse = true
+				case *ssa.MakeInterface, *ssa.ChangeInterface:
+					what = "converted and passed on"
+					// io.ReadFull(s.inner, buf[read:need]): the conversion to io.Reader feeds the bounded read only
+					if v, isV := ref.(ssa.Value); isV && v.Referrers() != nil && len(*v.Referrers()) > 0 {
+						only := true
+						for _, r2 := range *v.Referrers() {
+							if c2, isC := r2.(*ssa.Call); !isC || c2 != readCall {
+								only = false
+							}
+						}
+						if only {
+							okUse, what = true, "the bounded read"
+						}
+					}
+				}
+				if okUse {
+					r.OK("C07.S7", key, ref.Pos(), "%s", what)
+				} else {
+					r.Bad("C07.S7", key, posOr(ref.Pos(), ld.Pos()), "%s uses the stream's transport outside the bounded read/write/close (%s): bytes of the stream can be consumed (or written) without passing through the framing of Recv/Send — e.g. a drain after a rejected message takes bytes of the following one", fnKey(f), what)
+				}
+			}
+		})
 	}
 	// --- S1
 	rs, ok := readCall.Call.Args[readBufArg].(*ssa.Slice)
